@@ -35,6 +35,9 @@ CHECKS = {
     "C08": ("sibling cross-check of wire decoders/encoders (linearised field-kind sequences over MIR call order and loops) + field coverage/unambiguity of the cache key + must-pass-through ordering in the Sync arm + who-may-write on the name map",
             "All-sites/all-paths structural decision over the type-checked MIR: Parse/Bind/Describe/Close are decoded and encoded with identical wire-field sequences (loops included) and Bind::rename copies the remainder of the original verbatim with length adjusted by the name lengths; the pool cache key reads query and param_types, not the name, each fed to the hasher separately (or formatted with literal separators); in the Sync arm a Bind/Describe naming a cached statement is appended only after ensure_prepared_statement_is_on_server()==Ok and a cached Parse is forwarded only on has_prepared_statement()==false after registration, else ParseComplete is synthesised; Client.prepared_statements is inserted into only by buffer_parse under the client's own name and otherwise only read/removed; an eviction builds Close(evicted), appends it to the buffer that is sent, before Ok; ErrorResponse un-caches the failed statement; rewrite/rename assign only the name.",
             "Multi-connection histories (LRU order, which server a transaction lands on) and hash collisions of distinct encodings are not decided. " + TRUST, "DESIGN.md §4 C08"),
+    "C12": ("must-pass-through ordering in Client::handle + direct-flow taint into the quoted SQL literal (format_args template decoded from the compiled constant) + presence/provenance rules on ParameterStatus handling and startup merge + constant-table agreement",
+            "All-paths/all-sites structural decision over the type-checked MIR: every path from the checkout to a server send/receive passes a successful Server::sync_parameters(client's map) on the server just checked out; in sync_parameters the value placed inside '...' does not flow straight from the parameter map (an intervening escaper call is required) and keys come from TRACKED_PARAMETERS; Server::recv applies a ParameterStatus to the server's map and to the caller's map (startup=false, values read from the message) in the 'S' arm, client traffic passes Some(&mut client map), pooler-internal queries pass None; at login the pool's parameters are merged with the startup packet before being written and kept; tracked set = defaults = the five parameters of the property.",
+            "What PostgreSQL reports back, and the correctness of the escaper beyond its presence, are not decided (the demo demos/d4_c12_quoted_parameter.rs exercises it). " + TRUST, "DESIGN.md §4 C12"),
 }
 
 NOT_APPLICABLE = {}
